@@ -87,7 +87,66 @@ def render_conf(rng, default, hosts):
     return '\n'.join(out) + '\n'
 
 
+def tunnel_part(ctx):
+    """The WebSocket pass-through of the config-driven server: routes with a `websocket` target that echoes what it was
+    handed. The upgrade request must arrive at the target as it was sent (request line, every header field); compared with
+    Server.ws_forwarded_text and read independently."""
+    rng = ctx.rng
+    n = 100 if ctx.tier == 'thorough' else 6 * ctx.scale
+    lines, meta = [], []
+    if ctx.replay:
+        return
+    for _ in range(n):
+        pats = rng.sample(['/ws', '/chat/*', '/a*', '/*'], rng.randint(1, 3))
+        conf = '\n'.join(['server {', '  address "127.0.0.1"', '  port 8080', '  threads 8', '  log {', '    level "error"', '    console false', '  }'] +
+                         [ln for r in pats for ln in ('  route %s {' % r, '    redirect "/elsewhere"', '    websocket "@UPE@"', '  }')] + ['}']) + '\n'
+        reqs = []
+        for _ in range(4):
+            t = rng.choice(['/ws', '/chat/room1', '/chat/', '/abc', '/zzz', '/a', '/ws?token=1', '/chat/r?x=1&y=2'])
+            xff = rng.choice([None, None, '10.0.0.%d' % rng.randint(1, 9)])
+            reqs.append((t, xff))
+        lines.append('srv %s - %s -' % (hx(conf), ','.join('%s:%s:-:%s:-:ws' % (hx('x'), hx(t), hx(x) if x else '-') for t, x in reqs)))
+        meta.append((pats, reqs))
+    im = ctx.impl(lines)
+    ctx.evaluations += len(lines)
+    from props import srvmodel
+    srvmodel.compare(ctx, lines, im, 'server-tunnel-mismatch', 'WebSocket pass-through of the config-driven server')
+    for line, (pats, reqs), b in zip(lines, meta, im):
+        ctx.count('kind:server-tunnel-e2e')
+        got = b.split(',')
+        if len(got) != len(reqs):
+            ctx.report({'line': line[:4000], 'kind': 'server-tunnel-e2e'}, b[:300], 'one answer per request', cls='server-tunnel-mismatch',
+                       failing_input=b in ('PANIC', 'DIED', 'TIMEOUT'), what='the config-driven server did not answer: ' + b[:100])
+            continue
+        for (t, xff), g in zip(reqs, got):
+            path = t.split('?')[0]
+            matched = any((path.startswith(p_[:-1]) if p_.endswith('*') else path == p_) for p_ in pats)
+            case = {'line': line[:4000], 'kind': 'server-tunnel-e2e', 'request': t}
+            if not matched:
+                if g != 'noresp':
+                    ctx.report(case, g[:200], 'closed without a response', cls='server-tunnel-route', failing_input=True,
+                               what='an upgrade request no WebSocket route matches was answered')
+                continue
+            if not g.startswith('200:body:'):
+                ctx.report(case, g[:200], 'the echo of the upgrade request', cls='server-tunnel-answer', failing_input=True,
+                           what='an upgrade request to a route with a websocket target did not reach the target')
+                continue
+            seen = bytes.fromhex(g.split(':')[2])
+            head = seen.split(b'\r\n\r\n')[0].split(b'\r\n')
+            hs = sorted((x.split(b': ', 1)[0].lower(), x.split(b': ', 1)[1]) for x in head[1:] if b': ' in x)
+            want = sorted([(b'host', b'x'), (b'upgrade', b'websocket'), (b'connection', b'Upgrade'),
+                           (b'sec-websocket-key', b'dGhlIHNhbXBsZSBub25jZQ=='), (b'sec-websocket-version', b'13')] +
+                          ([(b'x-forwarded-for', xff.encode())] if xff else []))
+            if head[0] != ('GET %s HTTP/1.1' % t).encode() or hs != want:
+                ctx.report(case, seen[:300].decode('utf-8', 'replace'), 'GET %s HTTP/1.1 with the header fields sent' % t, cls='server-tunnel-request',
+                           failing_input=True, what='the websocket target was not handed the upgrade request as it was sent')
+            else:
+                ctx.count('tunnelled upgrade request read independently')
+                ctx.mark_nontrivial('tunnel ' + t + str(xff))
+
+
 def server_part(ctx):
+    tunnel_part(ctx)
     rng = ctx.rng
     n = 1200 if ctx.tier == 'thorough' else 60 * ctx.scale
     lines, meta = [], []
